@@ -515,8 +515,14 @@ func GenC10(seed uint64, idx int) *Scenario {
 					// the caller first cuts the slices of the value it re-uses (v.Items = v.Items[:0])
 					ops = append(ops, Op{Kind: "reslice", Target: op.Target, Arg: r.Intn(1000)})
 				case 2:
-					// the target holds a value the caller built itself (not one plenc decoded)
-					ops = append(ops, Op{Kind: "fill", Type: tn, Target: op.Target, VSeed: r.Next() | 1, VSize: 2 + r.Intn(16), Vocab: vocab, Pat: "raw"})
+					// the target holds a value the caller built itself (not one plenc decoded): half
+					// the time a relative of what is about to be decoded into it (the same fields
+					// populated, similar lengths), otherwise anything
+					f := Op{Kind: "fill", Type: tn, Target: op.Target, VSeed: r.Next() | 1, VSize: 2 + r.Intn(16), Vocab: vocab, Pat: "raw"}
+					if r.Intn(2) == 0 {
+						f.VSeed, f.VSize, f.Mut = slotSeed(seed, idx, t, tn), op.VSize, r.Next()|1
+					}
+					ops = append(ops, f)
 				}
 				ops = append(ops, op)
 			case k < 8: // fresh target: must be independent of history
